@@ -484,7 +484,7 @@ func actualShape(xsrc string, d gsDesc) (gsShape, string) {
 		case *ast.CallExpr:
 			switch fn := v.Fun.(type) {
 			case *ast.Ident:
-				if fn.Name == want && want != "" {
+				if fn.Name == want && want != "" && !isUserCall(v, d) {
 					s.FmtSite, s.Builtin = "builtin", want
 					if d.Pos == "stmt" {
 						s.Cmd = "paren"
@@ -544,6 +544,15 @@ func actualShape(xsrc string, d gsDesc) (gsShape, string) {
 		s.Cmd = "na"
 	}
 	return s, ""
+}
+
+// isUserCall: the program's own call `X("u")` of its package-level function named like the builtin
+func isUserCall(v *ast.CallExpr, d gsDesc) bool {
+	if d.Shk != "pkgfunc" || len(v.Args) != 1 {
+		return false
+	}
+	lit, ok := v.Args[0].(*ast.BasicLit)
+	return ok && lit.Value == `"u"`
 }
 
 func shapeDiff(want, got gsShape) string {
